@@ -9,7 +9,11 @@
 //! (Model/Integrity with the executable MD5 / SHA-256 / lookup3) answers the same lines.
 //! O: a mutation inside the protected region is rejected, or the logical content returned is the
 //! base artifact's; a validating read returns only bytes whose MD5 is the requested key and a
-//! failed validation leaves the key in no layer. V1: an input whose LAST `Checksum: ` line is
+//! failed validation leaves the key in no layer — also when the backing store changes between the
+//! reads of ONE call (`cagetf`: harness-owned inner cache; `getvf`: the disk layer's file rewritten at
+//! the verif-hooks schedule points inside DiskCache::get). Every comparison is equality: all byte
+//! values at every stored-digest position and fold-cancelling byte pairs (`sub2`); IndexFooter::
+//! is_valid is also observed by itself (`fvalid`). V1: an input whose LAST `Checksum: ` line is
 //! well-formed is accepted only with exactly that line's digits, which are SHA-256 of all bytes
 //! before the line (own SHA-256) — whatever the protected bytes contain.
 use bytes::Bytes;
@@ -2102,6 +2106,6 @@ fn main() {
         ml_fault_family(&mut s, &mut it, &mut rng, q(2, 12));
     }
 
-    s.rule = "valid artifacts from the crates' builders (encoding tables with 1 KiB pages, archive indices with key sizes 7/9/16 and offset sizes 4/5/6, .lru files with 0–20 entries, update sections with 1–23 entries, local headers at five base offsets, segment header blocks, V1 responses plain/multipart/upper-case checksum, and V1 responses whose checksummed bytes themselves contain 1–4 occurrences of the text `Checksum: ` — free text / empty / 63, 64, 65 digits / upper case / all zero / a nested line valid for its own prefix, placed in a header value, at a line start, mid-line at the end of a row, mid-line followed by more text, in the MIME preamble / epilogue or glued to the real line, with line ends CRLF / LF / none: 9 fixed shapes + random ones) × single-bit flips (exhaustive over the protected region for artifacts ≤ 4 KiB in thorough; always exhaustive over .lru files, local headers, index footers, checksum fields, the 22 encoding header bytes and every `Checksum: ` occurrence of a V1 response), byte substitutions (0x00, 0xFF, +1, random; every value for local headers in thorough), truncations and insertions at protected-range boundaries (V1: cuts at the start / end of every `Checksum: ` occurrence and line); cache histories of put_with_validation / put_to_layer / overwrite-backing-file / get_with_validation / ContentAddressedCache put/corrupt/get; evaluations = mutated artifacts + cache histories; non-trivial = acceptor got past its length guards (any response except err:io / none) resp. history reached a hit or a validation error; distinct = canonical (kind, base prefix, request) text".into();
+    s.rule = "valid artifacts from the crates' builders (encoding tables with 1 KiB pages, archive indices with key sizes 7/9/16 and offset sizes 4/5/6, .lru files with 0–20 entries, update sections with 1–23 entries, local headers at five base offsets, segment header blocks, V1 responses plain/multipart/upper-case checksum, and V1 responses whose checksummed bytes themselves contain 1–4 occurrences of the text `Checksum: ` — free text / empty / 63, 64, 65 digits / upper case / all zero / a nested line valid for its own prefix, placed in a header value, at a line start, mid-line at the end of a row, mid-line followed by more text, in the MIME preamble / epilogue or glued to the real line, with line ends CRLF / LF / none: 9 fixed shapes + random ones) × single-bit flips (exhaustive over the protected region for artifacts ≤ 4 KiB in thorough; always exhaustive over .lru files, local headers, index footers, checksum fields, the 22 encoding header bytes and every `Checksum: ` occurrence of a V1 response), byte substitutions (0x00, 0xFF, +1, random; every value for local headers in thorough), truncations and insertions at protected-range boundaries (V1: cuts at the start / end of every `Checksum: ` occurrence and line); cache histories of put_with_validation / put_to_layer / overwrite-backing-file / get_with_validation / ContentAddressedCache put/corrupt/get; 'comparison weaker than equality' families: all 255 other byte values at every position of each stored digest and small protected region (.lru with 0 / 1 entries, local headers, first update slot, archive-index footers through parse / open / is_valid alone, first CKey page checksum; sampled positions of pages, segment block, V1 message; V1 digits: all values at sampled positions, every hex digit in both cases + neighbouring characters at the others; content-key bytes on both validated puts, value bytes behind both validated gets) and two-byte substitutions whose differences cancel under XOR / sum / difference folds (all pairs inside stored digests, same-lane pairs of local headers, sampled pairs elsewhere); 'returned bytes are the validated bytes' families: get_validated through a harness-owned inner cache that answers differently at the 1st / 2nd / 3rd read of the call (rewritten from then on / that read only; bit flip, truncation, extension, other value, entry gone, same bytes; honest / already damaged store), get_with_validation with the disk layer's file rewritten at the DiskCache schedule points before the first / after the first / after a second read; evaluations = mutated artifacts + cache histories; non-trivial = acceptor got past its length guards (any response except err:io / none) resp. history reached a hit or a validation error; distinct = canonical (kind, base prefix, request) text".into();
     s.finish();
 }
